@@ -7,4 +7,24 @@ CHECKS = {
   "note": TB + " The model accepts both a live-view and a snapshot semantics of Clone, since the property allows either.",
   "technique": "stateful property-based testing (rapid) against a list model",
  },
+ "C03": {
+  "text": "Generated search over import scenarios (constructor x hint history x prefix x body) with go/types as oracle: the rendered file is type-checked against fabricated packages whose declared names only match when jennifer's alias/no-alias decision is right; every marker symbol must resolve to the package it was built with, through one qualifier per path, with zero type errors. No counter-example among the generated scenarios; absence is not established.",
+  "note": TB + " Fabricated importer: one synthetic package per path; std names read from GOROOT/src package clauses.",
+  "technique": "property-based testing (rapid) with a go/types resolution oracle over fabricated packages",
+ },
+ "C04": {
+  "text": "Generated search over freshly built Files with large unused hint tables, Anon sets and references inside Dict pairs that render nothing; the import specs of the output are compared with the set of marker symbols that occur in the output plus the Anon set (exactly once each, '_' only for anon-only paths, none unused per go/types).",
+  "note": TB + " 'Rendered or not' is read off the output, not modelled.",
+  "technique": "property-based testing (rapid): set equality between import specs and markers found in the output, plus go/types unused-import detection",
+ },
+ "C05": {
+  "text": "Exhaustive enumeration of every Go keyword and universe identifier as last path element and as ImportName/ImportNames/ImportAlias hint under four prefixes, plus generated multisets of competing paths and arbitrary parser-valid path strings; oracle = go/token.IsIdentifier/IsKeyword, types.Universe, pairwise distinctness, go/types resolution.",
+  "note": TB + " Paths that go/parser rejects cannot occur in Go source and are outside the domain.",
+  "technique": "exhaustive enumeration of reserved words + property-based testing (rapid) with independent reserved-word and uniqueness predicates",
+ },
+ "C06": {
+  "text": "Generated search over local paths, near-miss paths and sets of dot-imported paths, with and without PackagePrefix: markers of local and dot paths must appear bare (and resolve through go/types via the dot import / the companion file), near misses must be qualified and imported normally, each dot path has exactly one `. \"path\"` spec.",
+  "note": TB,
+  "technique": "property-based testing (rapid) with bare-vs-qualified predicates and go/types resolution",
+ },
 }
